@@ -95,6 +95,7 @@ pub fn rows_reply(bytes: &[u8]) -> String {
         Err(_) => return "err".into(),
     };
     let mut n = 0usize;
+    let mut failed = false;
     for item in it {
         n += 1;
         if n > bytes.len() + 3 {
@@ -102,14 +103,18 @@ pub fn rows_reply(bytes: &[u8]) -> String {
             return toks.join(" ");
         }
         match item {
+            Ok(_) if failed => toks.push("row-after-error".into()),
             Ok(row) => {
                 toks.push("row".into());
                 toks.push("?".into()); // consumption is filled in by rows_reply_counted
                 vx::w_dict(&row, &mut toks);
             }
             Err(_) => {
-                toks.push("e".into());
-                break;
+                // reported once; the consumer keeps iterating: the stream must still end
+                if !failed {
+                    toks.push("e".into());
+                }
+                failed = true;
             }
         }
     }
@@ -147,6 +152,7 @@ pub fn rows_reply_counted(bytes: &[u8]) -> String {
     };
     let mut toks: Vec<String> = vec!["ok".into()];
     let mut n = 0usize;
+    let mut failed = false;
     for item in it {
         n += 1;
         if n > bytes.len() + 3 {
@@ -154,14 +160,18 @@ pub fn rows_reply_counted(bytes: &[u8]) -> String {
             return toks.join(" ");
         }
         match item {
+            Ok(_) if failed => toks.push("row-after-error".into()),
             Ok(row) => {
                 toks.push("row".into());
                 toks.push(pos.get().to_string());
                 vx::w_dict(&row, &mut toks);
             }
             Err(_) => {
-                toks.push("e".into());
-                break;
+                // reported once; the consumer keeps iterating: the stream must still end
+                if !failed {
+                    toks.push("e".into());
+                }
+                failed = true;
             }
         }
     }
@@ -242,9 +252,8 @@ pub fn exec(_label: &str, input: &str, out: &mut CaseOut) {
                             out.fail("unbounded_iterator", "the row iterator keeps yielding items".into());
                             break;
                         }
-                        if item.is_err() {
-                            break;
-                        }
+                        // a consumer that notes an error and goes on iterating must come to an end too
+                        let _ = item.is_err();
                     }
                 }
             }
